@@ -55,7 +55,15 @@ func NormDiags(ds hcl.Diagnostics) []string {
 		if d.Subject != nil {
 			subj = d.Subject.String()
 		}
-		out = append(out, fmt.Sprintf("%d|%s|%s|%s", d.Severity, d.Summary, reDidYouMean.ReplaceAllString(d.Detail, ""), subj))
+		detail := reDidYouMean.ReplaceAllString(d.Detail, "")
+		// go-cty reports a panic inside a function implementation with the goroutine number and
+		// stack of that run; only the first line is a function of the input
+		if i := strings.Index(detail, "panic in function implementation"); i >= 0 {
+			if j := strings.Index(detail[i:], "\n"); j >= 0 {
+				detail = detail[:i+j]
+			}
+		}
+		out = append(out, fmt.Sprintf("%d|%s|%s|%s", d.Severity, d.Summary, detail, subj))
 	}
 	return out
 }
